@@ -504,7 +504,7 @@ class Models:
         @M.trait('Clone', 'clone')
         def _clone(ex, args, info):
             v = deref(args[0])
-            return clone_val(v)
+            return M.clone_value(ex, v)
 
         @M.trait('PartialEq', 'eq')
         def _eq(ex, args, info):
@@ -1341,6 +1341,23 @@ class Models:
                 return Ptr(mp.entries[-1][1])
             return Ptr(Cell(key)) if info.method == 'key' else key
 
+        # ---------- lazy_static!: <NAME as Deref>::deref -> &'static T, initialiser interpreted once per path
+        @M.rx(r'^<([A-Z][A-Z0-9_]*) as Deref>::deref$', 'lazy_static deref')
+        def _lazy(ex, m, args, callee, dest):
+            name = m.group(1)
+            st = ex.world.__dict__.setdefault('statics', {})
+            if name not in st:
+                init = None
+                needle = '<%s as Deref>::deref::__static_ref_initialize' % name
+                for f in ex.prog.fns:
+                    if f.name.endswith('::deref::__stability') and any(s_[0] == 'call' and needle in s_[2] for b in f.blocks.values() for s_ in b):
+                        init = ex.prog.by_full.get((f.crate, f.name[:-len('__stability')] + '__static_ref_initialize'))
+                        break
+                if init is None:
+                    raise Unsupported('lazy_static initialiser of %s not found' % name)
+                st[name] = Cell(ex.call_fn(init, []))
+            return Ptr(st[name])
+
         # ---------- Box / mem
         @M.path('Box', ['new', 'pin'])
         def _box_new(ex, args, info):
@@ -1451,6 +1468,27 @@ class Models:
             raise Unsupported('Error::kind of %r' % (e,))
 
     # ------------------------------------------------------------------ misc helpers
+    def clone_value(self, ex, v):
+        """Clone::clone of an owned value; reference-counted handles go through their hooks (count increments)"""
+        hooks = getattr(self, 'clone_hooks', None)
+        if not hooks:
+            return clone_val(v)
+        h = hooks.get(type(v).__name__)
+        if h is not None:
+            return h(ex, v)
+        if isinstance(v, Struct):
+            return Struct([self.clone_value(ex, x) for x in v.f], v.name)
+        if isinstance(v, Enum):
+            ex.force(v)
+            return Enum(v.ename, v.variant, [self.clone_value(ex, x) for x in v.f])
+        if isinstance(v, ArrayV):
+            return ArrayV([self.clone_value(ex, x) for x in v.items])
+        if isinstance(v, VecM):
+            return VecM([self.clone_value(ex, x) for x in v.items], v.kind)
+        if isinstance(v, MapM):
+            return MapM([[self.clone_value(ex, k), Cell(self.clone_value(ex, c.v))] for k, c in v.entries], v.ordered, v.kind)
+        return clone_val(v)
+
     def length(self, v):
         if isinstance(v, SliceRef):
             return v.n
